@@ -66,7 +66,7 @@ def run_fuzz_property(prop, spec, tier, seed):
             binary = build.build_target(t["name"], t.get("variant", "asan"), src=t.get("src"), extra_flags=t.get("flags", ()), extra_src=t.get("extra_src", ()))
         except build.BuildError as e:
             print(f"BUILD-ERROR {prop}: {e}", file=sys.stderr)
-            return 2
+            return None
         label = os.path.basename(binary)
         runs = t["quick_runs"] if tier == "quick" else t["thorough_runs"]
         workers = t.get("quick_workers", 4) if tier == "quick" else t.get("thorough_workers", 16)
@@ -106,27 +106,68 @@ def run_fuzz_property(prop, spec, tier, seed):
         coverage["exhaustive"] = True
         coverage["exhaustive_what"] = spec["exhaustive_note"]
     violations = [f for f in all_findings if f["signature"] not in known_sigs]
-    write_evidence(prop, tier, seed, spec["level"], coverage, spec.get("assumptions", []), wall, len(violations))
+    lines = []
     for e in findings_known:
         n = excluded.get("excluded_known:" + e["signature"], 0)
-        print(f"KNOWN-FINDING: property={prop} {e['what']} (signature {e['signature']}; met {n} times in this run and excluded)")
-    for f in all_findings:
-        if f["signature"] in known_sigs:
-            continue
-        print(f"# violation signature={f['signature']} target={f.get('target')} reproduced={f.get('reproduced')}/3")
-        print(f"#   reason: {f['reason']}")
+        lines.append(f"KNOWN-FINDING: property={prop} {e['what']} (signature {e['signature']}; met {n} times in this run and excluded)")
+    for f in violations:
+        lines.append(f"# violation signature={f['signature']} target={f.get('target')} reproduced={f.get('reproduced')}/3")
+        lines.append(f"#   reason: {f['reason']}")
         if f.get("case"):
-            print(f"#   case: {f['case'][:1500]}")
-        print(f"VIOLATION property={prop} replay={f['path']}")
-    if violations:
-        return 1
+            lines.append(f"#   case: {f['case'][:1500]}")
+        lines.append(f"VIOLATION property={prop} replay={f['path']}")
+    broken = None
     if harness_errors:
-        print(f"CHECK-BROKEN {prop}: harness error: {harness_errors[0][:600]}", file=sys.stderr)
+        broken = f"harness error: {harness_errors[0][:600]}"
+    elif starved:
+        broken = f"starved: {'; '.join(starved)}"
+    return {"coverage": coverage, "violations": len(violations), "lines": lines, "broken": broken, "wall": wall}
+
+
+def finish(prop, spec, tier, seed, parts, t0):
+    """Merge the results of one or more engines, write the evidence file, print, return the exit code."""
+    cov = None
+    nviol = 0
+    lines, broken = [], None
+    for r in parts:
+        if r is None:
+            return 2
+        nviol += r["violations"]
+        lines += r["lines"]
+        broken = broken or r["broken"]
+        c = r["coverage"]
+        if cov is None:
+            cov = c
+        else:
+            cov["evaluations"] += c["evaluations"]
+            cov["distinct_nontrivial"] += c["distinct_nontrivial"]
+            cov["samples"] = (cov["samples"][:6] + c["samples"][:6])
+            for k, v in c.get("classes", {}).items():
+                cov["classes"][k] = cov["classes"].get(k, 0) + v
+            for k in ("per_target", "per_suite"):
+                if k in c:
+                    cov[k] = c[k]
+            for k, v in c.get("excluded_known_findings", {}).items():
+                cov.setdefault("excluded_known_findings", {})[k] = v
+            for k, v in c.get("inconclusive", {}).items():
+                cov.setdefault("inconclusive", {})[f"py_{k}"] = v
+    seen = set()
+    out = []
+    for l in lines:  # a KNOWN-FINDING line is printed once even if two engines list it
+        if l.startswith("KNOWN-FINDING") and l.split(" (signature")[0] in seen:
+            continue
+        seen.add(l.split(" (signature")[0])
+        out.append(l)
+    wall = time.time() - t0
+    write_evidence(prop, tier, seed, spec["level"], cov, spec.get("assumptions", []), wall, nviol)
+    for l in out:
+        print(l)
+    if nviol:
+        return 1
+    if broken:
+        print(f"CHECK-BROKEN {prop}: {broken}", file=sys.stderr)
         return 2
-    if starved:
-        print(f"CHECK-BROKEN {prop}: starved: {'; '.join(starved)}", file=sys.stderr)
-        return 2
-    print(f"OK {prop} tier={tier} seed={seed} evaluations={total['evals']} distinct_nontrivial={total['distinct']} wall={wall:.1f}s")
+    print(f"OK {prop} tier={tier} seed={seed} evaluations={cov['evaluations']} distinct_nontrivial={cov['distinct_nontrivial']} wall={wall:.1f}s")
     return 0
 
 
